@@ -1,4 +1,4 @@
-import EupsModel.Lemmas.VersionCmp
+import EupsModel.Lemmas.VersionConv
 /-! C10 — version names are ordered consistently: property theorems.
 
 `stdCompare strict a b` is the model of `hooks.version_cmp(a, b, mustReturnInt = !strict)`
@@ -44,6 +44,14 @@ def n_10 : Str := [49, 48]   -- 10
 #guard Str.toString n_10 == "10"
 def n_1a : Str := [49, 97]   -- 1a
 #guard Str.toString n_1a == "1a"
+def n_1d2d0 : Str := [49, 46, 50, 46, 48]   -- 1.2.0
+#guard Str.toString n_1d2d0 == "1.2.0"
+def n_1d2mrc1 : Str := [49, 46, 50, 45, 114, 99, 49]   -- 1.2-rc1
+#guard Str.toString n_1d2mrc1 == "1.2-rc1"
+def n_1d2p1 : Str := [49, 46, 50, 43, 49]   -- 1.2+1
+#guard Str.toString n_1d2p1 == "1.2+1"
+def n_a1db2 : Str := [97, 49, 46, 98, 50]   -- a1.b2
+#guard Str.toString n_a1db2 == "a1.b2"
 
 /-! ## reflexivity and antisymmetry: every accepted name, both modes -/
 
@@ -109,6 +117,113 @@ example : lex n_1d2mrc1p3 = .ok (.node n_1d2 (.node n_rc1 .absent .absent) (.nod
 example : stdCompare true n_1d10 n_1d9 = .ok 1 := by decide
 example : stdCompare true n_v1 n_w1 = .error .unsortable := by decide
 example : stdCompare false n_m1 n_1 = .error .malformed := by decide
+
+/-! ## conventional names: a transitive total order with the stated shape
+
+`convName a` (model, `Bool`): `a` is accepted and every `.`/`_`-separated component of its primary,
+secondary and tertiary part is a run of letters followed by a run of digits (either may be empty).
+This contains the grammar of the property (`conventionalName`: `[letters] digits (sep digits)*`,
+optional `-pre`, optional `+post`; lemma `conventional_conv`) — the harness checks that every name
+its conventional generator produces satisfies `conventional` in the model. -/
+
+theorem convName_lex {a : Str} (h : convName a = true) : ∃ la, lex a = .ok la ∧ convLexed la = true := by
+  simp only [convName] at h
+  cases hl : lex a with
+  | error e => simp [hl] at h
+  | ok la => exact ⟨la, rfl, by simpa [hl] using h⟩
+
+theorem conventionalName_convName {a : Str} (h : conventionalName a = true) : convName a = true := by
+  simp only [conventionalName, convName] at h ⊢
+  cases hl : lex a with
+  | error e => simp [hl] at h
+  | ok la => simp only [hl] at h ⊢; exact conventional_conv h
+
+/-- Total: any two conventional names are comparable, one way or the other (sorting mode). -/
+theorem C10_conv_total (a b : Str) (ha : convName a = true) (hb : convName b = true) :
+    ∃ r, stdCompare false a b = .ok r ∧ stdCompare false b a = .ok (-r) ∧ (r ≤ 0 ∨ -r ≤ 0) := by
+  obtain ⟨la, hla, _⟩ := convName_lex ha
+  obtain ⟨lb, hlb, _⟩ := convName_lex hb
+  obtain ⟨r, hr⟩ := C10_sort_total a b la lb hla hlb
+  exact ⟨r, hr, C10_antisym a b r hr, by omega⟩
+
+/-- Transitive: `a ≤ b` and `b ≤ c` give `a ≤ c`, strictly if one of the steps is strict. -/
+theorem C10_conv_trans (a b c : Str) (ha : convName a = true) (hb : convName b = true) (hc : convName c = true)
+    (r1 r2 : Int) (h1 : stdCompare false a b = .ok r1) (h2 : stdCompare false b c = .ok r2)
+    (hr1 : r1 ≤ 0) (hr2 : r2 ≤ 0) :
+    ∃ r3, stdCompare false a c = .ok r3 ∧ r3 ≤ 0 ∧ ((r1 < 0 ∨ r2 < 0) → r3 < 0) := by
+  obtain ⟨la, hla, ca⟩ := convName_lex ha
+  obtain ⟨lb, hlb, cb⟩ := convName_lex hb
+  obtain ⟨lc, hlc, cc⟩ := convName_lex hc
+  simp only [stdCompare, hla, hlb, hlc, cmpLexed, Bool.false_eq_true, if_false, Except.ok.injEq] at h1 h2 ⊢
+  subst h1; subst h2
+  refine ⟨_, rfl, good_cmpSort.trans la lb lc ca cb cc hr1 hr2, ?_⟩
+  rintro (h | h)
+  · exact good_cmpSort.lt_of_lt_le ca cb cc h hr2
+  · exact good_cmpSort.lt_of_le_lt ca cb cc hr1 h
+
+/-- In the strict mode (the one relational expressions use) conventional names of the property's
+grammar that carry the same letters in front are always sortable, with the sorting mode's answer. -/
+theorem C10_conv_strict_total (a b : Str) (la lb : Lexed) (hla : lex a = .ok la) (hlb : lex b = .ok lb)
+    (ha : conventional la = true) (hb : conventional lb = true) (hp : letterPrefix la = letterPrefix lb) :
+    stdCompare true a b = stdCompare false a b := by
+  simp only [stdCompare, hla, hlb, cmpLexed, if_true, Bool.false_eq_true, if_false]
+  exact cmpStrict_of_intPairs (intPairs_conventional ha hb hp)
+
+/-- Components compare numerically: the first differing components, with the same letters and
+different numbers, decide by the numbers (`1.9 < 1.10`, `v2 < v10`, `1.2-rc9 …` is `C10` one level down). -/
+theorem C10_numeric (a b : Str) (la lb : Lexed) (hla : lex a = .ok la) (hlb : lex b = .ok lb)
+    (cs r1 r2 : List Str) (l d1 d2 : Str)
+    (hl : ∀ c ∈ l, Str.isAlpha c = true) (hd1 : ∀ c ∈ d1, isDig c = true) (hd2 : ∀ c ∈ d2, isDig c = true)
+    (n1 : d1 ≠ []) (n2 : d2 ≠ [])
+    (hca : la.comps = cs ++ (l ++ d1) :: r1) (hcb : lb.comps = cs ++ (l ++ d2) :: r2)
+    (hne : Str.toNat d1 ≠ Str.toNat d2) :
+    stdCompare false a b = .ok (cmpNat (Str.toNat d1) (Str.toNat d2)) := by
+  simp only [stdCompare, hla, hlb, cmpLexed, Bool.false_eq_true, if_false, Except.ok.injEq]
+  rw [cmpSort_unfold, hca, hcb, cmpComps_common_prefix, cmpC_numeric ⟨hl, hd1⟩ ⟨hl, hd2⟩ n1 n2]
+  have : cmpNat (Str.toNat d1) (Str.toNat d2) ≠ 0 := by
+    simp only [cmpNat]; split
+    · omega
+    · split <;> omega
+  simp [this]
+
+/-- A longer name follows its prefix: `1.2 < 1.2.0`, whatever the `-pre`/`+post` parts are. -/
+theorem C10_longer_follows_prefix (a b : Str) (la lb : Lexed) (hla : lex a = .ok la) (hlb : lex b = .ok lb)
+    (e : List Str) (he : e ≠ []) (h : lb.comps = la.comps ++ e) :
+    stdCompare false a b = .ok (-1) := by
+  simp only [stdCompare, hla, hlb, cmpLexed, Bool.false_eq_true, if_false, Except.ok.injEq]
+  rw [cmpSort_unfold, h, cmpComps_longer _ _ he]; simp
+
+/-- A pre-release precedes the release: equal primary parts (as the component loop sees them — `1.0`,
+`1_0` and `01.0` are equal), a `-pre` part on the left and none on the right. -/
+theorem C10_prerelease_precedes (a b : Str) (la lb : Lexed) (hla : lex a = .ok la) (hlb : lex b = .ok lb)
+    (hp : cmpComps la.comps lb.comps = 0) (hs : la.sec.present = true) (hn : lb.sec.present = false) :
+    stdCompare false a b = .ok (-1) := by
+  simp only [stdCompare, hla, hlb, cmpLexed, Bool.false_eq_true, if_false, Except.ok.injEq]
+  rw [cmpSort_unfold, hp]
+  simp [secTer, hs, hn]
+
+/-- A post-release follows the release: equal primary parts, no `-pre` part on either side, a `+post`
+part (with a non-empty primary, i.e. not of the form `m<digits>`) on the left and none on the right. -/
+theorem C10_postrelease_follows (a b : Str) (la lb : Lexed) (hla : lex a = .ok la) (hlb : lex b = .ok lb)
+    (hp : cmpComps la.comps lb.comps = 0) (hs : la.sec.present = false) (hn : lb.sec.present = false)
+    (p : Str) (s' t' : Lexed) (ht : la.ter = .node p s' t') (hpn : p ≠ []) (hb : lb.ter = .absent) :
+    stdCompare false a b = .ok 1 := by
+  simp only [stdCompare, hla, hlb, cmpLexed, Bool.false_eq_true, if_false, Except.ok.injEq]
+  rw [cmpSort_unfold, hp]
+  simp only [ne_eq, not_true_eq_false, if_false, secTer, hs, hn, Bool.or_self, Bool.false_eq_true, ht, hb]
+  rw [cmpSort_unfold]
+  simp only [Lexed.comps, Lexed.prim, splitSep]
+  rw [cmpComps_splitSep_absent hpn]; simp
+
+/-! non-vacuity of the hypotheses and instances of the clauses -/
+example : conventionalName n_1d2mrc1p3 = true ∧ convName n_1d2mrc1p3 = true := by decide
+example : conventionalName n_v1u0mrc1 = true ∧ conventionalName n_v1d0 = true := by decide
+example : convName n_a1db2 = true ∧ conventionalName n_a1db2 = false := by decide    -- `a1.b2`: inside the class of the theorems, outside the property's grammar
+example : convName n_1a = false := by decide                                         -- `1a` (digits before letters) is outside: see the cycle witness
+example : stdCompare false n_1d9 n_1d10 = .ok (-1) ∧ stdCompare true n_1d9 n_1d10 = .ok (-1) := by decide
+example : stdCompare false n_1d2 n_1d2d0 = .ok (-1) := by decide
+example : stdCompare false n_1d2mrc1 n_1d2 = .ok (-1) ∧ stdCompare false n_1d2p1 n_1d2 = .ok 1 := by decide
+example : stdCompare false n_1d2mrc1p3 n_1d2p1 = .ok (-1) := by decide
 
 /-! ## witnesses -/
 
